@@ -387,4 +387,80 @@ example : ∀ p ∈ (fullGC (ofImage (Dir.empty.run regTrace).allApplied) []).di
   exact C10_after_crash_registered regTrace hd regTrace.length _ (by decide)
     (by simpa using hi) (by decide) ⟨⟨0, 2, 30, [0, 2]⟩, by decide, by decide⟩
 
+/-- **the small-step collection refines the big-step one**: from every idle state, running
+`gcCompute`, one `gcDelete` per selected path (with the given failures) and `gcFinish` ends with
+the same directory and the same managed set as `fullGC` (as sets), no collection in flight. So
+the quiescent theorems stated on `fullGC` hold for the event model `C10_gc_safe` speaks about. -/
+theorem C10_small_step_refines_fullGC (s : St) (fails : List Path) :
+    let r := s.run (fullGCSteps s fails)
+    (∀ p, p ∈ r.dir ↔ p ∈ (fullGC s fails).dir) ∧ (∀ p, p ∈ r.managed ↔ p ∈ (fullGC s fails).managed) ∧
+    r.pending = none := by
+  intro r
+  let T := s.managed.filter (fun p => !(living s).contains p)
+  let s1 := s.step .gcCompute
+  have h1 : LoopInv s1 T fails [] s1 := by
+    refine ⟨?_, rfl, rfl, ?_, ?_⟩
+    · simp [s1, St.step, T]
+    · intro p; simp
+    · intro p; simp [s1, St.step]
+  have hD : ∀ q ∈ (dedup T), q ∈ T := fun q hq => (mem_dedup T q).mp hq
+  have h2 := LoopInv.run (s0 := s1) (T := T) (fails := fails) (dedup T) hD (nodup_dedup T) [] (by simp) s1 h1
+  simp only [List.nil_append] at h2
+  have hr : r = ((s1.run ((dedup T).map (fun p => Ev.gcDelete p (!fails.contains p)))).step .gcFinish) := by
+    simp [r, fullGCSteps, St.run, List.foldl_append, s1, T]
+  have hpend : (s1.run ((dedup T).map (fun p => Ev.gcDelete p (!fails.contains p)))).pending = some [] := by
+    rw [h2.pending]
+    congr 1
+    apply List.filter_eq_nil_iff.mpr
+    intro p hp'
+    simp [(mem_dedup T p).mpr hp']
+  rw [hr]
+  generalize s1.run ((dedup T).map (fun p => Ev.gcDelete p (!fails.contains p))) = st2 at h2 hpend
+  refine ⟨?_, ?_, ?_⟩
+  · intro p
+    simp only [St.step, hpend]
+    rw [h2.dir p, mem_fullGC_dir, mem_fullGC_deleted]
+    simp only [s1, St.step, T, List.mem_filter, mem_dedup, Bool.not_eq_true', List.contains_eq_mem,
+      decide_eq_false_iff_not]
+    constructor
+    · rintro ⟨h3, h4⟩
+      exact ⟨h3, fun ⟨hm, hl, hf⟩ => h4 ⟨⟨hm, hl⟩, ⟨hm, hl⟩, hf⟩⟩
+    · rintro ⟨h3, h4⟩
+      exact ⟨h3, fun ⟨⟨hm, hl⟩, _, hf⟩ => h4 ⟨hm, hl, hf⟩⟩
+  · intro p
+    simp only [St.step, hpend, List.mem_filter, Bool.not_eq_true', List.contains_eq_mem, decide_eq_false_iff_not]
+    rw [h2.managed, h2.deleted p, mem_fullGC_managed, mem_fullGC_deleted]
+    simp only [s1, St.step, T, List.mem_filter, mem_dedup, Bool.not_eq_true', List.contains_eq_mem,
+      decide_eq_false_iff_not]
+    constructor
+    · rintro ⟨h3, h4⟩
+      exact ⟨h3, fun ⟨hm, hl, hf⟩ => h4 ⟨⟨hm, hl⟩, ⟨hm, hl⟩, hf⟩⟩
+    · rintro ⟨h3, h4⟩
+      exact ⟨h3, fun ⟨⟨hm, hl⟩, _, hf⟩ => h4 ⟨hm, hl, hf⟩⟩
+  · simp only [St.step, hpend]
+
+
+example : (demo.run (fullGCSteps demo [30])).failed = [30] := by decide
+
+/-- **registration-before-create is a property of the code shape**: `ManagedDirectory::open_write`
+with its two steps in the EXTRACTED order (register, then create) satisfies R1–R3 in every state,
+for every path and every new managed list that contains the path and everything that may still
+be on disk (the in-memory set only grows here). Together with
+`C10_existing_files_are_managed` this derives rule R1 from the source instead of observing it. -/
+theorem C10_open_write_registers_first (s : Dir) (mg : Payload) (p : Path) (hp : p ∈ mg.refs)
+    (hall : ∀ q, (s.file q).mayPresent = true → q ∈ mg.refs) :
+    RegDisc s (managedOpenWriteOps Gen.MANAGED_OPEN_WRITE_STEPS mg p) := by
+  have ho : Gen.MANAGED_OPEN_WRITE_STEPS = [1, 2] := by decide
+  rw [ho]
+  refine ⟨fun _ => hall, ?_, trivial⟩
+  show p ∈ visibleManaged (s.step (.atomicWrite MANAGED mg))
+  simp [visibleManaged, Dir.step, AtomSt.visible, hp]
+
+/-- the swapped order (create, then register) breaks R1 in the empty directory -/
+example : ¬ RegDisc Dir.empty (managedOpenWriteOps [2, 1] ⟨0, 0, 5, [0, 2]⟩ 2) := by
+  simp [managedOpenWriteOps, RegDisc, RegOK, Dir.empty, visibleManaged, AtomSt.visible]
+
+example : RegDisc Dir.empty (managedOpenWriteOps Gen.MANAGED_OPEN_WRITE_STEPS ⟨0, 0, 5, [0, 2]⟩ 2) :=
+  C10_open_write_registers_first _ _ _ (by decide) (by intro q h; simp [Dir.empty, FileSt.mayPresent] at h)
+
 end TantivyModel.C10
